@@ -62,7 +62,11 @@ NoLockLeftAt(x) == (x.quiet /\ x.nokill) => \A w \in Weeks(x) : ~x.lock[w]
 LeftoverRetriedAt(x) == (x.quiet /\ x.nokill /\ x.nuploaders = 1) =>
      \A w \in Weeks(x) : x.ready[w].st = "file" =>
          \E i \in DOMAIN x.posts : ToString(x.posts[i].w) = w /\ x.posts[i].n = x.maxruns
-Bad == {<<i, "LeftoverRetried">> : i \in {j \in 1..Len(Trace) : ~LeftoverRetriedAt(Trace[j])}} \cup
+(* C07: per-program-build values are the sums over exactly the files of that build (harness-side decoding of the report) *)
+RepOK(r) == (r.st = "file" /\ r.complete) => r.buildsok
+PerBuildSumsAt(x) == \A w \in Weeks(x) : RepOK(x.localr[w]) /\ RepOK(x.ready[w]) /\ RepOK(x.uploaded[w])
+Bad == {<<i, "PerBuildSums">> : i \in {j \in 1..Len(Trace) : ~PerBuildSumsAt(Trace[j])}} \cup
+       {<<i, "LeftoverRetried">> : i \in {j \in 1..Len(Trace) : ~LeftoverRetriedAt(Trace[j])}} \cup
        {<<i, "NoLockLeft">> : i \in {j \in 1..Len(Trace) : ~NoLockLeftAt(Trace[j])}} \cup
        {<<i, "ReadyMatchesLocal">> : i \in {j \in 1..Len(Trace) : ~ReadyMatchesLocalAt(Trace[j])}} \cup
        {<<i, "ReplyHandled">> : i \in {j \in 1..Len(Trace) : ~ReplyHandledAt(j)}} \cup
@@ -75,5 +79,5 @@ Bad == {<<i, "LeftoverRetried">> : i \in {j \in 1..Len(Trace) : ~LeftoverRetried
        \cup {<<i, "ReportStable">> : i \in {j \in 1..Len(Trace) : ~ReportStableAt(j)}}
 ASSUME PrintT(<<"C08BAD", Bad>>)
 AllGood == /\ OneBodyPerWeekAt(Trace[l]) /\ NoResendAt(Trace[l]) /\ MarkerOnlyAfterAckAt(Trace[l]) /\ UntouchedAt(Trace[l])
-           /\ OneLocalReportAt(Trace[l]) /\ DeleteOnlyAfterReportAt(l) /\ ReportStableAt(l) /\ ReplyHandledAt(l) /\ ReadyMatchesLocalAt(Trace[l]) /\ NoLockLeftAt(Trace[l]) /\ LeftoverRetriedAt(Trace[l])
+           /\ OneLocalReportAt(Trace[l]) /\ DeleteOnlyAfterReportAt(l) /\ ReportStableAt(l) /\ ReplyHandledAt(l) /\ ReadyMatchesLocalAt(Trace[l]) /\ NoLockLeftAt(Trace[l]) /\ LeftoverRetriedAt(Trace[l]) /\ PerBuildSumsAt(Trace[l])
 =============================================================================
